@@ -87,7 +87,7 @@ def install(R):
           on_raise=[("nothing_but_this_result_touched", "fs_same_except(ResultPath(crop.location, batch_number))"),
                     ("no_result_recorded_unless_every_case_returned", "implies(not called('write_to_disk'), fs_unchanged())")],
           crash=[("crash.result_file_old_or_complete_and_correct", "GrowCrash(crop.location, batch_number, old(ncalls()))")])
-    R.get(K + "grow").props = ["C04", "C08", "C10"]
+    R.get(K + "grow").prop_map["crash."] = ["C10"]
     return R
 
 
@@ -133,14 +133,14 @@ def install_sow(R):
           raises={"OSError": dict(ensures=["fs_same_except(InfoPath(self.location))", info_crash])},
           crash=[("crash.settings_file_old_or_complete_and_new", info_crash)],
           notes="raw crops (no farmer); the pickled farmer of Runner/Harvester/Sampler crops is C06")
-    R.get(K + "Crop.save_info").props = ["C04", "C07", "C10"]
+    R.get(K + "Crop.save_info").prop_map["crash."] = ["C10"]
 
     R.add(K + "Crop.save_function_to_disk", cls="Crop", result="none", props=["C04"],
           modifies=["ghost:FS"],
           ensures=[("saved", "fs_exists(FnPath(self.location)) and fs_complete(FnPath(self.location))"), ("frame", "fs_same_except(FnPath(self.location))")],
           raises={"OSError": dict(ensures=["fs_same_except(FnPath(self.location))", fn_crash])},
           crash=[("crash.function_file_old_or_complete", fn_crash)])
-    R.get(K + "Crop.save_function_to_disk").props = ["C04", "C10"]
+    R.get(K + "Crop.save_function_to_disk").prop_map["crash."] = ["C10"]
     R.add(K + "Crop.ensure_dirs_exists", cls="Crop", inline=True)
 
     R.add(K + "Crop.prepare", cls="Crop", result="none", props=["C04", "C07"],
@@ -149,7 +149,7 @@ def install_sow(R):
           ensures=[info_saved, ("frame", "fs_same_except2(InfoPath(self.location), FnPath(self.location))")],
           raises={"OSError": dict(ensures=["fs_same_except2(InfoPath(self.location), FnPath(self.location))", prep_crash])},
           crash=[("crash.settings_and_function_files_old_or_complete", prep_crash)])
-    R.get(K + "Crop.prepare").props = ["C04", "C07", "C10"]
+    R.get(K + "Crop.prepare").prop_map["crash."] = ["C10"]
     return R
 
 
